@@ -385,16 +385,23 @@ class SymDict(ModelObj):
             ctx.assume(n >= 0)
             ctx.assume(z3.ForAll([k], z3.Select(self.dom, k) == z3.And(pos(k) >= 0, pos(k) < n, ks(pos(k)) == k)))
             ctx.assume(z3.ForAll([i], z3.Implies(z3.And(i >= 0, i < n), z3.And(pos(ks(i)) == i, z3.Select(self.dom, ks(i))))))
+            for kt in ctx.ghost.get("key_terms", []):
+                if kt.sort() == self.ksort:
+                    ctx.assume(z3.Select(self.dom, kt) == z3.And(pos(kt) >= 0, pos(kt) < n, ks(pos(kt)) == kt))
             self._enum = (n, ks, pos)
         return self._enum
 
     def do_keys(self, I):
         n, ks, _ = self.enum(I.ctx)
-        return SymList(n, lambda i: Sym(ks(i)), elem_sort=self.ksort)
+        sl = SymList(n, lambda i: Sym(ks(i)), elem_sort=self.ksort)
+        sl.src_dict, sl.src_kind = self, "keys"
+        return sl
 
     def do_items(self, I):
         n, ks, _ = self.enum(I.ctx)
-        return SymList(n, lambda i: (Sym(ks(i)), self.wrap(z3.Select(self.val, ks(i)))))
+        sl = SymList(n, lambda i: (Sym(ks(i)), self.wrap(z3.Select(self.val, ks(i)))))
+        sl.src_dict, sl.src_kind = self, "items"
+        return sl
 
     def m_iter(self, I):
         return self.do_keys(I)
